@@ -35,7 +35,7 @@ func runC05(ctx *Ctx) {
 	plmns := [][2]string{{"001", "01"}, {"999", "99"}, {"208", "93"}, {"310", "410"}, {"001", "001"}, {"999", "999"}}
 	supiDigits := "001010123456789"
 	r.Rule = fmt.Sprintf("deviation-bounded enumeration (all vectors with <=%d non-default choices; small dimensions additionally as a full product) over K(%d) x OP/OPc(%d) x RAND(%d) x SQN^AK(%d) x AMF(%d) x MCC/MNC(%d, 2- and 3-digit MNC) x SUPI length 5..15 x SUPI prefix{imsi-,supi-} x ciphering alg 0..3 x integrity alg 0..3 x {OPc given, OP only, OPc upper-case hex}; "+
-		"oracle: RES*, K_AMF, K_NASenc, K_NASint == refcrypto (TS 35.206 + TS 33.501 A.2/A.4/A.6/A.7/A.8), OP-only == OPc run; non-trivial = at least one non-default choice; distinct = distinct choice vectors",
+		"plus every history of <=3 derivations on one UE context over 9 vectors differing in one dimension; oracle: RES*, K_AMF, K_NASenc, K_NASint == refcrypto (TS 35.206 + TS 33.501 A.2/A.4/A.6/A.7/A.8), OP-only == OPc run; non-trivial = at least one non-default choice; distinct = distinct choice vectors",
 		bound, len(ks), len(ops), len(rands), len(sqnaks), len(amfs), len(plmns))
 	r.Assume("refcrypto anchored on TS 35.207 set 1 and RFC 4231-style HMAC from the Go standard library (crypto/hmac, crypto/sha256 are trusted)",
 		"128-bit values outside the structured alphabet are not enumerated (no branch of the derivation depends on key bits)")
@@ -129,4 +129,83 @@ func runC05(ctx *Ctx) {
 	for _, l := range locals {
 		l.Merge()
 	}
+	// Histories on ONE UE context: every sequence of <=3 derivations over 9 input vectors that differ from each
+	// other in a single dimension (same RAND with another SQN^AK / PLMN / K / OPc; another RAND; OP-only).
+	// Each call must give the reference values whatever was derived before on the same context.
+	type vec struct {
+		k, op, rand, sqnak []byte
+		plmn               [2]string
+		opOnly             bool
+	}
+	base := vec{ks[0], ops[0], rands[0], sqnaks[0], plmns[0], false}
+	vs := []vec{base}
+	v := base
+	v.sqnak = sqnaks[4]
+	vs = append(vs, v)
+	v = base
+	v.plmn = plmns[3]
+	vs = append(vs, v)
+	v = base
+	v.k = ks[2]
+	vs = append(vs, v)
+	v = base
+	v.op = ops[2]
+	vs = append(vs, v)
+	v = base
+	v.rand = rands[2]
+	vs = append(vs, v)
+	v = base
+	v.opOnly = true
+	vs = append(vs, v)
+	v = base
+	v.opOnly, v.k = true, ks[2]
+	vs = append(vs, v)
+	v = base
+	v.opOnly, v.op = true, ops[2]
+	vs = append(vs, v)
+	lh := r.Local()
+	nseq := 0
+	var rec func(seq []int)
+	rec = func(seq []int) {
+		if len(seq) > 0 {
+			nseq++
+			ue := tglib.NewRanUeContext("imsi-"+supiDigits, 1, 2, 2)
+			cs := "history on one context:"
+			for step, vi := range seq {
+				x := vs[vi]
+				opc := refcrypto.OPc(x.k, x.op)
+				subs := tglib.GetAuthSubscription(hex.EncodeToString(x.k), hex.EncodeToString(opc), hex.EncodeToString(x.op))
+				if x.opOnly {
+					subs = tglib.GetAuthSubscription(hex.EncodeToString(x.k), "", hex.EncodeToString(x.op))
+				}
+				var autn [16]byte
+				copy(autn[0:6], x.sqnak)
+				autn[6] = 0x80
+				cs += fmt.Sprintf(" [K=%x OP=%x RAND=%x SQNxorAK=%x PLMN=%s/%s opOnly=%v]", x.k[:2], x.op[:2], x.rand[:2], x.sqnak, x.plmn[0], x.plmn[1], x.opOnly)
+				want := refcrypto.Derive5G(x.k, opc, x.rand, x.sqnak, x.plmn[0], x.plmn[1], supiDigits, 2, 2)
+				var res []byte
+				if perr := recoverErr(func() {
+					res = ue.DeriveRESstarAndSetKey(subs, autn, append([]byte{}, x.rand...), refcrypto.SNName(x.plmn[0], x.plmn[1]), x.plmn[1], x.plmn[0])
+				}); perr != nil {
+					r.Violate("derive/panic", cs, perr.Error(), seq)
+					break
+				}
+				if !bytes.Equal(res, want.ResStar) || !bytes.Equal(ue.Kamf, want.Kamf) || ue.KnasEnc != want.KnasEnc || ue.KnasInt != want.KnasInt {
+					r.Violate("history/derivation-depends-on-earlier-call", cs, fmt.Sprintf("step %d: RES* %x (want %x) Kamf %x (want %x)", step, res, want.ResStar, ue.Kamf, want.Kamf), seq)
+					break
+				}
+			}
+			lh.Case(cs, len(seq) > 1, fmt.Sprint(seq))
+		}
+		if len(seq) == 3 {
+			return
+		}
+		for i := range vs {
+			rec(append(append([]int{}, seq...), i))
+		}
+	}
+	rec(nil)
+	lh.Merge()
+	r.Set("derivation_histories", nseq)
+	r.Sample("history on one context: derive(RAND r, SQN^AK a) ; derive(RAND r, SQN^AK b) ; derive(RAND r, PLMN 310/410)")
 }
